@@ -65,7 +65,7 @@ fn main() {
     util::install_panic_hook();
     let mut ctx = Ctx::new(&id, tier, seed);
     ctx.replay = replay;
-    let found = checks::run(&ctx);
+    let found = checks::run(&mut ctx);
     if !found {
         eprintln!("unknown property id {id}");
         std::process::exit(2);
